@@ -20,9 +20,16 @@ EXTRA.update({
  "C11-r2m1": ["C11", "C05"], "C11-r2m2": ["C11", "C14"], "C12-r2m1": ["C12"], "C12-r2m2": ["C12"], "C13-r2m1": ["C13"], "C13-r2m2": ["C13"],
  "C14-r2m1": ["C14", "C02"], "C14-r2m2": ["C14"], "C16-r2m1": ["C16"], "C16-r2m2": ["C16"], "C17-r2m1": ["C17"], "C17-r2m2": ["C17"],
 })
+EXTRA.update({
+ "C03-r3m1": ["C03", "C04", "C09"], "C03-r3m2": ["C03", "C04"], "C06-r3m1": ["C06"], "C06-r3m2": ["C06"], "C07-r3m1": ["C07"], "C07-r3m2": ["C07"],
+ "C08-r3m1": ["C08"], "C08-r3m2": ["C08"], "C15-r3m1": ["C15"], "C15-r3m2": ["C15", "C13"],
+ "C04-r4m1": ["C04"], "C04-r4m2": ["C04"], "C09-r4m1": ["C09", "C08"], "C09-r4m2": ["C09", "C03", "C04"], "C10-r4m1": ["C10", "C03", "C04", "C09"],
+ "C10-r4m2": ["C10"], "C11-r4m1": ["C11", "C14", "C05"], "C11-r4m2": ["C11", "C01"], "C13-r4m1": ["C13"], "C13-r4m2": ["C13"],
+ "C14-r4m1": ["C14", "C02"], "C14-r4m2": ["C14"],
+})
 PREFIX_PROP = {"d8b687c": ["C06"], "da7613f": ["C16"], "64a92d9": ["C02"], "2c87331": ["C13", "C02", "C12"], "06fc22c": ["C05", "C11"],
                "85dc330": ["C05", "C11"], "4c427cc": ["C13"], "a8065bf": ["C13"], "a4e97cf": ["C11"], "2aa0389": ["C04"],
-               "9db7846": ["C17"], "23f20cf": ["C17"], "b18464c": ["C07"], "d06cb78": ["C10"], "796c1d9": ["C01", "C11"]}
+               "9db7846": ["C17"], "23f20cf": ["C17"], "b18464c": ["C07"], "d06cb78": ["C10"], "796c1d9": ["C01", "C11"], "e184993": ["C10"]}
 
 
 CURRENT = {}
